@@ -35,10 +35,12 @@ EXPAND = ('arch::all::twoway::Shift', 'cow::Imp', 'memmem::searcher::SearcherRev
 
 
 class Fact:
-    __slots__ = ('guard', 'atom', 'label')
+    """guard => atom.  domain=True marks the documented panic condition of the function (the
+    caller must establish it; the function is analysed on both sides of it)"""
+    __slots__ = ('guard', 'atom', 'label', 'domain')
 
-    def __init__(self, guard, atom, label):
-        self.guard, self.atom, self.label = guard, atom, label
+    def __init__(self, guard, atom, label, domain=False):
+        self.guard, self.atom, self.label, self.domain = guard, atom, label, domain
 
 
 def tpath(I, v):
@@ -119,16 +121,37 @@ def rel_pair(I, st, pair, n, out, guard=()):
     out.append(Fact(guard, ('ne', i1 - i2), 'I-PAIR: index1 != index2'))
 
 
+def rel_generic(I, st, f, n, out, guard=()):
+    """generic::packedpair::Finder<V> {pair, v1, v2, min_haystack_len} built from a needle of length n:
+    min_haystack_len = max(n, max(index1, index2) + V::BYTES), of which the search needs the consequence
+    min_haystack_len - V::BYTES < n (the bytes left after the last full vector cannot hold the needle)"""
+    rel_pair(I, st, f.fields[0], n, out, guard)
+    ty = I.P.types[f.tid]
+    vbytes = None
+    for fd in ty['variants'][0]['fields']:
+        ft = I.P.types[fd['ty']]
+        if ft['kind'] == 'adt' and ft.get('simd'):
+            vbytes = ft.get('size')
+    mhl = f.fields[3] if len(f.fields) == 4 else None
+    if vbytes is None or not isinstance(mhl, IntV):
+        raise Shape('generic packed-pair finder: min_haystack_len / vector size not tracked')
+    out.append(Fact(guard, le(mhl.e - vbytes + 1, n), 'I-PP-REL: min_haystack_len - V::BYTES < needle.len()'))
+    out.append(Fact(guard, le(n, mhl.e), 'I-PP-REL: needle.len() <= min_haystack_len'))
+
+
 def rel_packed(I, st, f, n, out, guard=()):
     """any packed-pair finder (portable, generic<V>, or an arch wrapper around generic ones)"""
     p = tpath(I, f)
-    if p in (PP_ALL, PP_GEN):
+    if p == PP_ALL:
         rel_pair(I, st, f.fields[0], n, out, guard)
+        return
+    if p == PP_GEN:
+        rel_generic(I, st, f, n, out, guard)
         return
     if p is not None and PP_ARCH.match(p) and f.fields:
         for x in f.fields:
             if tpath(I, x) == PP_GEN:
-                rel_pair(I, st, x.fields[0], n, out, guard)
+                rel_generic(I, st, x, n, out, guard)
         return
     raise Shape(f'packed-pair finder value not tracked ({p})')
 
@@ -185,7 +208,7 @@ def rel_searcher_rev(I, st, s, n, out):
 def auto_rel(I, st, v, out, errs, depth=0, seen=None):
     """REL facts carried by a value on its own (a memmem::Finder holds both the needle and the searcher)"""
     seen = set() if seen is None else seen
-    if depth > 6 or v is None:
+    if depth > 14 or v is None:
         return
     if isinstance(v, RefV):
         if isinstance(v.lv, LVObj) and not isinstance(v.lv.obj, tuple):
@@ -205,9 +228,39 @@ def auto_rel(I, st, v, out, errs, depth=0, seen=None):
                 (rel_searcher if p == MM_FWD else rel_searcher_rev)(I, st, v.fields[1], n, out)
             except Shape as e:
                 errs.append(f'{p}: {e}')
+            # invariants of the values nested in the searcher (independent of the needle)
+            auto_rel(I, st, v.fields[1], out, errs, depth + 1, seen)
+            return
+        if p == 'memmem::FindRevIter' and len(v.fields) == 3:
+            h, pos = v.fields[0], v.fields[2]
+            if isinstance(h, SliceV) and isinstance(pos, AdtV) and pos.variant == 1 and isinstance(pos.fields[0], IntV):
+                out.append(Fact((), le(pos.fields[0].e, h.n), 'I-REVITER: pos = Some(p) => p <= haystack.len()'))
+            elif not (isinstance(pos, AdtV) and pos.variant == 0):
+                errs.append(f'{p}: window (haystack, pos) not tracked')
+        if p == 'arch::all::shiftor::Finder' and len(v.fields) == 2:
+            if isinstance(v.fields[1], IntV):
+                out.append(Fact((), ('le', v.fields[1].e - 15), 'I-SO: needle_len <= 15 (one bit of the u16 mask per needle byte, plus the match bit)'))
+            else:
+                errs.append(f'{p}: needle_len not tracked')
+            return
+        if p == 'arch::x86_64::avx2::packedpair::Finder' and len(v.fields) == 2:
+            a, b = v.fields
+            try:
+                if not (tpath(I, a) == PP_GEN and tpath(I, b) == PP_GEN and all(isinstance(x.fields[3], IntV) for x in (a, b))):
+                    raise Shape('avx2 packed-pair finder not tracked')
+                out.append(Fact((), le(a.fields[3].e, b.fields[3].e), 'I-AVX2PP: sse2.min_haystack_len <= avx2.min_haystack_len'))
+                for k in (0, 1):
+                    x, y = a.fields[0].fields[k], b.fields[0].fields[k]
+                    if not (isinstance(x, IntV) and isinstance(y, IntV)):
+                        raise Shape('avx2 packed-pair finder: pair not tracked')
+                    out.append(Fact((), ('eq', x.e - y.e), f'I-AVX2PP: both halves use the same pair (index{k + 1})'))
+            except (Shape, AttributeError, TypeError, IndexError) as e:
+                errs.append(f'{p}: {e}')
             return
         for f in v.fields:
             auto_rel(I, st, f, out, errs, depth + 1, seen)
+    elif isinstance(v, UnionV) and v.val is not None:
+        auto_rel(I, st, v.val, out, errs, depth + 1, seen)
 
 
 # ------------------------------------------------------------------ the D-table
@@ -220,8 +273,29 @@ def _tw_rev(I, st, args, out):
     rel_twoway(I, st, follow(I, st, args[0]), args[2].n, False, out)
 
 
+def pp_min_len(I, st, f):
+    """`min_haystack_len()` of an arch packed-pair finder: that of its first generic finder"""
+    p = tpath(I, f)
+    if p == PP_GEN:
+        return f.fields[3].e if isinstance(f.fields[3], IntV) else None
+    if p is not None and PP_ARCH.match(p) and f.fields:
+        for x in f.fields:
+            if tpath(I, x) == PP_GEN:
+                return x.fields[3].e if isinstance(x.fields[3], IntV) else None
+    return None
+
+
+def _pp_domain(I, st, args, out):
+    f = follow(I, st, args[0])
+    m = pp_min_len(I, st, f)
+    if m is None or not isinstance(args[1], SliceV):
+        raise Shape('min_haystack_len / haystack not tracked')
+    out.append(Fact((), le(m, args[1].n), 'documented panic: haystack.len() >= min_haystack_len()', domain=True))
+
+
 def _pp_find(I, st, args, out):
     rel_packed(I, st, follow(I, st, args[0]), args[2].n, out)
+    _pp_domain(I, st, args, out)
 
 
 def _with_pair(I, st, args, out):
@@ -235,6 +309,8 @@ PRE_TABLE = [
      'twoway::FinderRev::rfind: "The needle given must be the same as the needle provided to FinderRev::new"'),
     (re.compile(r'^arch::(x86_64::sse2|x86_64::avx2|aarch64::neon|wasm32::simd128)::packedpair::Finder::find$'), _pp_find,
      'packedpair::Finder::find: the needle is the one the finder was built from'),
+    (re.compile(r'^arch::(x86_64::sse2|x86_64::avx2|aarch64::neon|wasm32::simd128)::packedpair::Finder::find_prefilter$'), _pp_domain,
+     'packedpair::Finder::find_prefilter: "Panics when haystack.len() is less than Finder::min_haystack_len"'),
     (re.compile(r'^arch::(all|x86_64::sse2|x86_64::avx2|aarch64::neon|wasm32::simd128)::packedpair::Finder::with_pair$'), _with_pair,
      'packedpair::Finder::with_pair: the pair was selected for (is valid for) this needle'),
 ]
@@ -244,6 +320,8 @@ def _ret_some(ret):
     """payload of Option::Some, or None"""
     if isinstance(ret, AdtV) and ret.variant == 1 and ret.fields:
         return ret.fields[0]
+    if not (isinstance(ret, AdtV) and ret.variant == 0):
+        raise Shape('Option result of unknown variant')
     return None
 
 
@@ -267,11 +345,79 @@ def _post_packed(I, st, args, ret, out):
         rel_packed(I, st, f, args[0].n, out)
 
 
+def _post_index(hidx, nfun, what):
+    """`Some(i)` is an index at which `n` bytes fit into the haystack argument"""
+    def f(I, st, args, ret, out):
+        i = _ret_some(ret)
+        if i is None:
+            return
+        h = args[hidx]
+        if not isinstance(i, IntV) or not isinstance(h, SliceV):
+            raise Shape('index result / haystack not tracked')
+        n = nfun(I, st, args)
+        if n is None:
+            raise Shape('needle length not tracked')
+        out.append(Fact((), le(i.e + n, h.n), what))
+    return f
+
+
+def _n_one(I, st, args):
+    return C(1)
+
+
+def _n_arg(k):
+    def f(I, st, args):
+        return args[k].n if isinstance(args[k], SliceV) else None
+    return f
+
+
+def _n_cow_self(I, st, args):
+    v = follow(I, st, args[0])
+    if isinstance(v, AdtV) and v.fields:
+        return cow_len(I, st, v.fields[0])
+    return None
+
+
+def _n_shiftor(I, st, args):
+    v = follow(I, st, args[0])
+    if isinstance(v, AdtV) and v.fields and len(v.fields) == 2 and isinstance(v.fields[1], IntV):
+        return v.fields[1].e
+    return None
+
+
+def _post_same_needle(k):
+    def f(I, st, args, ret, out):
+        n = cow_len(I, st, ret.fields[0]) if isinstance(ret, AdtV) and ret.fields else None
+        if n is None or not isinstance(args[k], SliceV):
+            raise Shape('needle of the returned finder not tracked')
+        out.append(Fact((), ('eq', n - args[k].n), 'the returned finder holds a needle of the same length as the argument'))
+    return f
+
+
+_FITS = 'Some(i) => i + needle.len() <= haystack.len()'
+_INB = 'Some(i) => i < haystack.len()'
+_ARCH = r'(all|x86_64::sse2|x86_64::avx2|aarch64::neon|wasm32::simd128)'
+
 POST_TABLE = [
     (re.compile(r'^arch::all::twoway::Finder::new$'), _post_tw_fwd),
     (re.compile(r'^arch::all::twoway::FinderRev::new$'), _post_tw_rev),
     (re.compile(r'^arch::all::packedpair::Pair::(new|with_ranker(::<.*>)?|with_indices)$'), _post_pair),
-    (re.compile(r'^arch::(all|x86_64::sse2|x86_64::avx2|aarch64::neon|wasm32::simd128)::packedpair::Finder::(new|with_pair)$'), _post_packed),
+    (re.compile(r'^arch::' + _ARCH + r'::packedpair::Finder::(new|with_pair)$'), _post_packed),
+    # index results (assumed where the function is cut, proved at its own root)
+    (re.compile(r'^memchr::memr?chr$'), _post_index(1, _n_one, _INB)),
+    (re.compile(r'^memchr::memr?chr2$'), _post_index(2, _n_one, _INB)),
+    (re.compile(r'^memchr::memr?chr3$'), _post_index(3, _n_one, _INB)),
+    (re.compile(r'^arch::' + _ARCH + r'::memchr::(One|Two|Three)::r?find$'), _post_index(1, _n_one, _INB)),
+    (re.compile(r'^arch::' + _ARCH + r'::packedpair::Finder::find_prefilter$'), _post_index(1, _n_one, _INB)),
+    (re.compile(r'^arch::' + _ARCH + r'::packedpair::Finder::find$'), _post_index(1, _n_arg(2), _FITS)),
+    (re.compile(r'^arch::all::(twoway|rabinkarp)::(Finder::find|FinderRev::rfind)$'), _post_index(1, _n_arg(2), _FITS)),
+    (re.compile(r'^arch::all::shiftor::Finder::find$'), _post_index(1, _n_shiftor, _FITS)),
+    (re.compile(r"^memmem::(Finder::<'.*>::find|FinderRev::<'.*>::rfind)(::<.*>)?$"), _post_index(1, _n_cow_self, _FITS)),
+    (re.compile(r'^memmem::r?find$'), _post_index(0, _n_arg(1), _FITS)),
+    # the finder returned by a constructor holds (a copy of) the needle argument
+    (re.compile(r"^memmem::(Finder|FinderRev)::<'.*>::new(::<.*>)?$"), _post_same_needle(0)),
+    (re.compile(r'^memmem::FinderBuilder::(build_forward|build_reverse)(::<.*>)?$'), _post_same_needle(1)),
+    (re.compile(r'^memmem::FinderBuilder::build_forward_with_ranker(::<.*>)?$'), _post_same_needle(2)),
 ]
 
 
@@ -288,7 +434,7 @@ def lookup(table, path):
 # ------------------------------------------------------------------ expansion of unknown enum variants
 def expand(I, st, v, depth=0):
     """[(state, value)]: every way of fixing the variant of the (few) enums REL talks about"""
-    if depth > 8 or v is None:
+    if depth > 16 or v is None:
         return [(st, v)]
     if isinstance(v, RefV) and isinstance(v.lv, LVObj) and not v.lv.path and not isinstance(v.lv.obj, tuple):
         inner = st.heap.get(v.lv.obj)
@@ -308,6 +454,13 @@ def expand(I, st, v, depth=0):
                 outs.extend(expand(I, s2, AdtV(v.tid, vi, fs), depth + 1))
             return outs
     if isinstance(v, AdtV) and v.fields is not None:
+        if tpath(I, v) == 'memmem::FindRevIter' and len(v.fields) == 3 and isinstance(v.fields[2], AdtV) and v.fields[2].variant is None:
+            o = v.fields[2]
+            oty = I.P.types[o.tid]
+            s1 = st.copy()
+            some = AdtV(o.tid, 1, [I.fresh_of_type(s1, f['ty'], 'pos') for f in oty['variants'][1]['fields']])
+            return (expand(I, st, AdtV(v.tid, v.variant, list(v.fields[:2]) + [AdtV(o.tid, 0, [])]), depth + 1)
+                    + expand(I, s1, AdtV(v.tid, v.variant, list(v.fields[:2]) + [some]), depth + 1))
         alts = [(st, [])]
         for f in v.fields:
             nxt = []
@@ -437,9 +590,24 @@ def root_states(I, inst, st, args):
                 errs.append(str(e))
         for e in errs:
             I.note(f'REL not assumed at root {inst.path}: {e}')
+        dom = [f for f in facts if f.domain]
+        if dom and I.opts.get('mm_domain') == 'out':
+            # outside the documented domain (one analysis per violated condition)
+            rest = [f for f in facts if not f.domain]
+            for d in dom:
+                s3 = s.copy()
+                add_atom(s3, neg(d.atom))
+                for s2 in assume_facts(s3, rest):
+                    out.append((s2, a))
+            continue
         for s2 in assume_facts(s, facts):
             out.append((s2, a))
     return out
+
+
+def has_domain(inst):
+    row = lookup(PRE_TABLE, inst.path)
+    return bool(row) and row[1] in (_pp_find, _pp_domain)
 
 
 def check_call_pre(I, fr, st, callee, args, loc):
@@ -460,8 +628,48 @@ def check_call_pre(I, fr, st, callee, args, loc):
     check_facts(I, fr, st, loc, 'REL-PRE', facts, f'call {name}: ')
 
 
+def fresh_results(I, st, callee):
+    """[(state, value)]: arbitrary results of a cut call; a result that carries a (function pointer,
+    union) pairing is one fork per pairing alternative (I-SRCH / I-PRE hold for every value of the type)"""
+    from . import contracts
+    P = I.P
+    pairs = contracts.pair_alternatives(P)
+    mentioned = contracts.type_mentions(P, callee.locals[0], set(pairs)) - set(I.models.alts)
+    if not mentioned:
+        return [(st, I.fresh_of_type(st, callee.locals[0], 'cut'))]
+    outs = []
+    saved = dict(I.models.alts)
+    try:
+        for combo in contracts.alt_combos(P, mentioned):
+            s2 = st.copy()
+            I.models.alts = dict(saved, **combo)
+            outs.append((s2, I.fresh_of_type(s2, callee.locals[0], 'cut')))
+    finally:
+        I.models.alts = saved
+    return outs
+
+
+def expand_option(I, st, ret):
+    """an Option result of unknown variant: both variants"""
+    if isinstance(ret, AdtV) and ret.variant is None and not isinstance(ret.tid, tuple):
+        ty = I.P.types[ret.tid]
+        if ty.get('path') == 'core::option::Option':
+            s1 = st.copy()
+            fs = [I.fresh_of_type(s1, f['ty'], f['name']) for f in ty['variants'][1]['fields']]
+            return [(st, AdtV(ret.tid, 0, [])), (s1, AdtV(ret.tid, 1, fs))]
+    return [(st, ret)]
+
+
 def assume_call_post(I, fr, st, callee, args, ret):
     """REL assumed for the result of a cut constructor: [(state, ret)]"""
+    outs = []
+    starts = expand_option(I, st, ret) if lookup(POST_TABLE, callee.path) else [(st, ret)]
+    for s0, r0 in starts:
+        outs += _assume_post1(I, fr, s0, callee, args, r0)
+    return outs
+
+
+def _assume_post1(I, fr, st, callee, args, ret):
     outs = []
     for s, r in expand(I, st, ret):
         facts, errs = [], []
@@ -499,3 +707,13 @@ def check_root_post(I, inst, results, args):
         for e in errs:
             I.ob('REL-POST', fr, inst.loc, 'result: searcher/needle relation', False, f'value shape not tracked: {e}')
         check_facts(I, fr, st, inst.loc, 'REL-POST', facts, 'result: ')
+
+
+def check_domain(I, inst, vname, results):
+    """DOC-PANIC: outside its documented domain the function must panic (never return normally)"""
+    if not vname.endswith('|out-of-domain'):
+        return
+    fr = _Fr(inst)
+    live = [1 for st, _ in results if st.store.is_sat() and st.store.check_sat()]
+    I.ob('DOC-PANIC', fr, inst.loc, 'outside the documented domain the call panics (no normal return)', not live,
+         '' if not live else f'{len(live)} path(s) return normally although haystack.len() < min_haystack_len()')
